@@ -14,7 +14,8 @@
       `interrupted_gets_new_peer`, `removed_readded_new_peer`, `changed_back_new_peer_each_time`
                                        dropped or changed somewhere: never the old peer object again
       `old_generation_was_there_throughout`
-   3  `exactly_the_changes`, `stopped_exact`, `pure_reorder_creates_and_stops_none`, `noop_reload_counts`
+   3  `exactly_the_changes`, `stopped_exact`, `pure_reorder_creates_and_stops_none`, `noop_reload_counts`,
+      `sequence_counter_counts_created`
    4  `serving_throughout`             the lookup of a request succeeds for every configured id, at every point
    5  `listeners_last`, `listener_throughout_never_closed`, `listener_closed_only_when_removed`
 -/
@@ -78,7 +79,7 @@ example : (reloads ([], 0) ([cfgA] ++ [cfgB])).1[0]? = some (b1r, 2) := by decid
 /-- `history_independence_last`: for a non-empty sequence of reloads the peer map lists the last configuration. -/
 theorem history_independence_last (s : State) (cfgs : List (List Conn)) (h : cfgs ≠ []) :
     (reloads s cfgs).1.map (·.1) = cfgs.getLast h := by
-  have hsplit : cfgs = cfgs.dropLast ++ [cfgs.getLast h] := (List.dropLast_append_getLast h).symm
+  have hsplit : cfgs = cfgs.dropLast ++ [cfgs.getLast h] := (List.dropLast_concat_getLast h).symm
   have := reloads_last s cfgs.dropLast (cfgs.getLast h)
   rwa [← hsplit] at this
 
@@ -143,6 +144,11 @@ theorem interrupted_gets_new_peer {s : State} (pre post : List (List Conn)) (ci 
 example : GensBelow ([] : List (Conn × Nat)) 0 ∧ b1 ∉ cfgC ∧
     (b1, 4) ∈ (reloads ([], 0) ([cfgA, cfgB] ++ cfgC :: [cfgD])).1 := by decide
 
+/-- the hypothesis that the generation numbers are below the counter is needed: from an ill-formed start state the
+    counter can hand out a number that is not above the old ones -/
+example : ¬ GensBelow [(b0, 5)] 2 ∧ b0 ∉ ([] : List Conn) ∧
+    (b0, 2) ∈ (reloads ([(b0, 5)], 2) ([] ++ [] :: [[b0]])).1 := by decide
+
 /-- `removed_readded_new_peer`: a connection whose id was removed in some configuration `ci` and configured
     again later has a new peer object: greater generation number than every peer that existed before `ci`. -/
 theorem removed_readded_new_peer {s : State} (pre post : List (List Conn)) (ci : List Conn) {c : Conn}
@@ -186,19 +192,11 @@ example : PeerIdsDistinct ([(b0, 0), (b1, 1)] : List (Conn × Nat)) ∧ GensBelo
 
 /-! ## 3. exactly the changes -/
 
-theorem length_filter_add_not {α : Type} (p : α → Bool) (l : List α) :
-    (l.filter p).length + (l.filter (fun a => !p a)).length = l.length := by
-  induction l with
-  | nil => rfl
-  | cons a t ih =>
-    simp only [List.filter_cons]
-    cases p a <;> simp only [Bool.not_false, Bool.not_true, if_true, Bool.false_eq_true, if_false,
-      List.length_cons] <;> omega
-
 /-- `stopped_exact`: which peer objects of the old map are stopped by a reload: a peer object is still in use
     afterwards exactly if its definition is configured unchanged; so the stopped peers (`stoppedPeers`) are
     exactly those whose id was removed or whose definition was changed. -/
-theorem stopped_exact {old : List (Conn × Nat)} {conns : List Conn} {next : Nat} (hinv : Inv (old, next)) :
+theorem stopped_exact {old : List (Conn × Nat)} {conns : List Conn} {next : Nat} (hinv : Inv (old, next))
+    (hconns : IdsDistinct conns) :
     (∀ p ∈ old, p.2 ∈ (reloadResult old conns next).1.map (·.2) ↔ p.1 ∈ conns) ∧
       (∀ p, p ∈ stoppedPeers old conns ↔ p ∈ old ∧ p.2 ∉ (reloadResult old conns next).1.map (·.2)) ∧
       (∀ p ∈ old, p ∈ stoppedPeers old conns ↔
@@ -207,15 +205,15 @@ theorem stopped_exact {old : List (Conn × Nat)} {conns : List Conn} {next : Nat
     fun p hp => gen_survives_iff hinv hp
   refine ⟨h1, ?_, ?_⟩
   · intro p
-    simp only [stoppedPeers, List.mem_filter, Bool.not_eq_true', List.contains_eq_false_iff_not_mem]
+    rw [mem_stoppedPeers]
     constructor
     · rintro ⟨hp, hn⟩
       exact ⟨hp, fun h => hn ((h1 p hp).1 h)⟩
     · rintro ⟨hp, hn⟩
       exact ⟨hp, fun h => hn ((h1 p hp).2 h)⟩
   · intro p hp
-    simp only [stoppedPeers, List.mem_filter, Bool.not_eq_true', List.contains_eq_false_iff_not_mem, hp,
-      true_and]
+    rw [mem_stoppedPeers]
+    simp only [hp, true_and]
     constructor
     · intro hn
       by_cases hid : p.1.id ∈ conns.map (·.id)
@@ -225,6 +223,256 @@ theorem stopped_exact {old : List (Conn × Nat)} {conns : List Conn} {next : Nat
     · intro h hin
       rcases h with h | ⟨c', hc', hcid, hne⟩
       · exact h (List.mem_map_of_mem (f := (·.id)) hin)
-      · sorry
+      · exact hne (conn_unique hconns hc' hin hcid)
+
+example : Inv (exOld, 2) ∧ IdsDistinct exConns ∧ stoppedPeers exOld exConns = [(b1, 1)] := by decide
+
+/-- `exactly_the_changes`: the counting statement for one reload from the peer map `old` to the configuration
+    `conns` (both with distinct ids).  The reload creates exactly as many peers as there are configured
+    connections that are new or changed (no old peer with exactly this definition), keeps exactly as many as
+    there are unchanged ones, advances the generation counter by the number of created peers, stops exactly as
+    many peers as there are old peers whose id was removed or whose definition was changed, and
+    `stopped + kept = |old|`, `created + kept = |conns|`. -/
+theorem exactly_the_changes {old : List (Conn × Nat)} {conns : List Conn} {next : Nat}
+    (hids : PeerIdsDistinct old) (hconns : IdsDistinct conns) :
+    (createdGens (reloadPlan old conns next).1).length =
+        (conns.filter (fun c => !(old.map (·.1)).contains c)).length ∧
+      (keptGens (reloadPlan old conns next).1).length =
+        (conns.filter (fun c => (old.map (·.1)).contains c)).length ∧
+      (reloadResult old conns next).2 = next + (createdGens (reloadPlan old conns next).1).length ∧
+      (stoppedPeers old conns).length = (old.filter (fun p => !conns.contains p.1)).length ∧
+      (stoppedPeers old conns).length + (keptGens (reloadPlan old conns next).1).length = old.length ∧
+      (createdGens (reloadPlan old conns next).1).length + (keptGens (reloadPlan old conns next).1).length
+        = conns.length := by
+  have hc : (createdGens (reloadPlan old conns next).1).length =
+      (conns.filter (fun c => !(old.map (·.1)).contains c)).length := by
+    rw [created_length]
+    congr 1
+    apply List.filter_congr
+    intro c _
+    exact lookup_isNone_eq hids c
+  have hsum := length_kept_add_created (reloadPlan old conns next).1
+  rw [plan_length] at hsum
+  have hsplit := length_filter_add_not (fun c => (old.map (·.1)).contains c) conns
+  have hk : (keptGens (reloadPlan old conns next).1).length =
+      (conns.filter (fun c => (old.map (·.1)).contains c)).length := by omega
+  have hst := length_staying_add_stopped old conns
+  have hse := staying_length_eq hids hconns
+  refine ⟨hc, hk, ?_, rfl, by omega, by omega⟩
+  rw [result_snd, plan_counter_eq, created_length]
+
+/-- the reload of the task description: 2 created (`b1r` changed, `b2` new), 1 kept (`b0`), 1 stopped (`b1`) -/
+example : PeerIdsDistinct exOld ∧ IdsDistinct exConns ∧
+    (createdGens (reloadPlan exOld exConns 2).1).length = 2 ∧ (keptGens (reloadPlan exOld exConns 2).1).length = 1 ∧
+    (stoppedPeers exOld exConns).length = 1 := by decide
+
+/-- `pure_reorder_creates_and_stops_none`: a reload whose configuration lists exactly the definitions in force,
+    in any order, creates no peer, uses no generation number, stops no peer, and the new peer map has exactly the
+    old entries (every connection with its old peer object). -/
+theorem pure_reorder_creates_and_stops_none {old : List (Conn × Nat)} {conns : List Conn} (next : Nat)
+    (hids : PeerIdsDistinct old) (hperm : conns.Perm (old.map (·.1))) :
+    createdGens (reloadPlan old conns next).1 = [] ∧ (reloadResult old conns next).2 = next ∧
+      stoppedPeers old conns = [] ∧ (reloadResult old conns next).1.Perm old := by
+  have hsub : ∀ c ∈ conns, c ∈ old.map (·.1) := fun c hc => hperm.subset hc
+  have hnone := filter_isNone_of_subset hids hsub
+  have hcnt : (reloadPlan old conns next).2 = next := by
+    rw [plan_counter_eq, hnone]
+    rfl
+  have hconns : IdsDistinct conns := by
+    have hids' : ((old.map (fun p : Conn × Nat => p.1)).map (fun c : Conn => c.id)).Nodup := hids
+    exact (hperm.map (fun c : Conn => c.id)).nodup_iff.2 hids'
+  refine ⟨?_, ?_, ?_, ?_⟩
+  · rw [createdGens_plan, hcnt, Nat.sub_self]
+    rfl
+  · rw [result_snd, hcnt]
+  · unfold stoppedPeers
+    rw [List.filter_eq_nil_iff]
+    intro p hp
+    have : p.1 ∈ conns := hperm.symm.subset (List.mem_map_of_mem (f := (·.1)) hp)
+    simp [this]
+  · have hn1 : (reloadResult old conns next).1.Nodup := by
+      apply nodup_of_nodup_map (·.1)
+      rw [result_map_fst]
+      exact conns_nodup hconns
+    rw [List.perm_ext_iff_of_nodup hn1 (peers_nodup hids)]
+    rintro ⟨c, g⟩
+    constructor
+    · intro h
+      obtain ⟨d, hd, hgen⟩ := mem_result.1 h
+      cases d with
+      | keep g' =>
+        have hgg : g' = g := hgen
+        subst hgg
+        exact lookup_some_mem (mem_plan_keep hd).2
+      | create g' =>
+        exfalso
+        have hk := mem_plan_create hd
+        obtain ⟨⟨c0, g0⟩, hm0, hc0⟩ := List.mem_map.1 (hsub c hk.1)
+        simp only at hc0
+        subst hc0
+        have := lookup_of_mem hids.ids hm0
+        rw [hk.2.1] at this
+        cases this
+    · intro h
+      exact unchanged_in_result next h hids (hperm.symm.subset (List.mem_map_of_mem (f := (·.1)) h))
+
+/-- a pure reorder of the start-up configuration -/
+example : PeerIdsDistinct exOld ∧ [b1, b0].Perm (exOld.map (·.1)) ∧
+    reloadResult exOld [b1, b0] 2 = ([(b1, 1), (b0, 0)], 2) := by
+  refine ⟨by decide, ?_, by decide⟩
+  exact List.Perm.swap b0 b1 []
+
+/-- `noop_reload_counts`: reloading the configuration in force leaves the state equal, creates no peer and stops
+    no peer. -/
+theorem noop_reload_counts (old : List (Conn × Nat)) (next : Nat) (hids : PeerIdsDistinct old) :
+    reloadResult old (old.map (·.1)) next = (old, next) ∧
+      createdGens (reloadPlan old (old.map (·.1)) next).1 = [] ∧
+      (keptGens (reloadPlan old (old.map (·.1)) next).1).length = old.length ∧
+      stoppedPeers old (old.map (·.1)) = [] := by
+  have h := pure_reorder_creates_and_stops_none (conns := old.map (·.1)) next hids (List.Perm.refl _)
+  refine ⟨noop_reload old next hids, h.1, ?_, h.2.2.1⟩
+  have hsum := length_kept_add_created (reloadPlan old (old.map (·.1)) next).1
+  rw [plan_length, h.1] at hsum
+  simpa using hsum
+
+example : PeerIdsDistinct exOld := by decide
+
+/-- `sequence_counter_counts_created`: over a whole sequence of reloads the generation counter advances by exactly
+    the number of peers created by all reloads together (`createdPerReload`: the number of created peers of
+    every reload, in order). -/
+theorem sequence_counter_counts_created (s : State) (cfgs : List (List Conn)) :
+    (reloads s cfgs).2 = s.2 + (createdPerReload s cfgs).sum :=
+  reloads_counter_eq s cfgs
+
+example : createdPerReload ([], 0) [cfgA, cfgB, cfgC, cfgD] = [2, 2, 0, 1] := by decide
+
+/-! ## 4. serving during the sequence -/
+
+/-- the lookup a request does for a backend id (`PeerMap[id]`) -/
+def peerFor (m : List (Conn × Nat)) (id : String) : Option (Conn × Nat) := m.find? (fun p => p.1.id == id)
+
+/-- `serving_throughout`: at every point of a sequence of reloads - after the reload with any configuration
+    `conns` of the sequence (distinct ids), whatever came before - every configured id maps to exactly one peer:
+    the peer map has one entry per configured connection; the lookup a request does succeeds for every
+    configured id, finds a peer of the connection configured under this id, and this is the only entry of the
+    id (no id without peer, no duplicate); every peer of the map belongs to a configured connection and is what
+    the lookup of its id finds (no peer without id); and the lookup of an id that is not configured fails. -/
+theorem serving_throughout (s : State) (cfgs pre post : List (List Conn)) (conns : List Conn)
+    (hsplit : cfgs = pre ++ conns :: post) (hconns : IdsDistinct conns) :
+    reloads s (pre ++ [conns]) ∈ states s cfgs ∧
+    (reloads s (pre ++ [conns])).1.length = conns.length ∧
+    (∀ id ∈ conns.map (·.id), ∃ c g, peerFor (reloads s (pre ++ [conns])).1 id = some (c, g) ∧ c ∈ conns ∧
+        c.id = id ∧ ∀ p ∈ (reloads s (pre ++ [conns])).1, p.1.id = id → p = (c, g)) ∧
+    (∀ p ∈ (reloads s (pre ++ [conns])).1, p.1 ∈ conns ∧ peerFor (reloads s (pre ++ [conns])).1 p.1.id = some p) ∧
+    (∀ id, id ∉ conns.map (·.id) → peerFor (reloads s (pre ++ [conns])).1 id = none) := by
+  have hmap : (reloads s (pre ++ [conns])).1.map (·.1) = conns := reloads_last s pre conns
+  have hd : PeerIdsDistinct (reloads s (pre ++ [conns])).1 := by
+    unfold PeerIdsDistinct
+    rwa [hmap]
+  have hfind : ∀ p ∈ (reloads s (pre ++ [conns])).1, peerFor (reloads s (pre ++ [conns])).1 p.1.id = some p := by
+    rintro ⟨c, g⟩ hp
+    exact find?_of_mem hd.ids hp
+  refine ⟨?_, ?_, ?_, ?_, ?_⟩
+  · rw [mem_states]
+    exact ⟨pre ++ [conns], post, by rw [hsplit]; simp, rfl⟩
+  · have := congrArg List.length hmap
+    simpa using this
+  · intro id hid
+    obtain ⟨c, hc, rfl⟩ := List.mem_map.1 hid
+    rw [← hmap] at hc
+    obtain ⟨⟨c', g⟩, hp, rfl⟩ := List.mem_map.1 hc
+    refine ⟨c', g, hfind _ hp, ?_, rfl, ?_⟩
+    · rw [← hmap]
+      exact List.mem_map_of_mem (f := (·.1)) hp
+    · intro q hq hqid
+      exact entry_unique hd hq hp hqid
+  · intro p hp
+    refine ⟨?_, hfind p hp⟩
+    rw [← hmap]
+    exact List.mem_map_of_mem (f := (·.1)) hp
+  · intro id hid
+    unfold peerFor
+    rw [List.find?_eq_none]
+    intro p hp hpid
+    apply hid
+    rw [← hmap, List.map_map]
+    have : p.1.id = id := by simpa using hpid
+    rw [← this]
+    exact List.mem_map_of_mem (f := (fun x : Conn × Nat => x.1.id)) hp
+
+example : [cfgA, cfgB, cfgC, cfgD] = [cfgA] ++ cfgB :: [cfgC, cfgD] ∧ IdsDistinct cfgB ∧
+    peerFor (reloads ([], 0) ([cfgA] ++ [cfgB])).1 "id1" = some (b1r, 2) ∧
+    peerFor (reloads ([], 0) ([cfgA, cfgB] ++ [cfgC])).1 "id1" = none := by decide
+
+/-- the distinct-ids hypothesis is needed: with one id configured twice the lookup finds one of two peers -/
+example : (reloads ([], 0) ([] ++ [[b1, b1r]])).1 = [(b1, 0), (b1r, 1)] := by decide
+
+/-! ## 5. listeners -/
+
+/-- `listeners_last`: after any sequence of listener reloads the open listeners are exactly those of the last
+    configuration, each once - whatever was open before and whatever the earlier configurations were. -/
+theorem listeners_last (opn : List String) (cfgs : List (List String)) (last : List String) :
+    (∀ l, l ∈ listenerRuns opn (cfgs ++ [last]) ↔ l ∈ last) ∧ (listenerRuns opn (cfgs ++ [last])).Nodup ∧
+      (listenerRuns opn (cfgs ++ [last])).Perm last.eraseDups := by
+  rw [listenerRuns_snoc]
+  have h := listeners_match (listenerRuns opn cfgs) last
+  refine ⟨h.1, h.2, ?_⟩
+  rw [List.perm_ext_iff_of_nodup h.2 (nodup_eraseDups last)]
+  intro l
+  rw [h.1 l, List.mem_eraseDups]
+
+example : listenerRuns ["/tmp/lmd.sock"] ([["0.0.0.0:6557"], []] ++ [["0.0.0.0:6558", "0.0.0.0:6557", "0.0.0.0:6558"]])
+    = ["0.0.0.0:6558", "0.0.0.0:6557"] := by decide
+
+/-- `listener_throughout_never_closed`: a listener that is open at the start and configured in every
+    configuration of the sequence is kept by every reload of the sequence - never closed, never opened again -
+    and is open at the end. -/
+theorem listener_throughout_never_closed (opn : List String) (cfgs : List (List String)) (l : String)
+    (h0 : l ∈ opn) (hall : ∀ cfg ∈ cfgs, l ∈ cfg) :
+    (∀ p ∈ listenerPlans opn cfgs, l ∈ p.kept ∧ l ∉ p.closed ∧ l ∉ p.opened) ∧ l ∈ listenerRuns opn cfgs := by
+  induction cfgs generalizing opn with
+  | nil => exact ⟨fun p hp => (nomatch hp), h0⟩
+  | cons new rest ih =>
+    have hnew : l ∈ new := hall new List.mem_cons_self
+    have hk : l ∈ (reloadListeners opn new).kept := ((listeners_kept opn new).1 l).2 ⟨h0, hnew⟩
+    have hnc := listeners_kept_not_closed opn new l hk
+    have hopen : l ∈ (reloadListeners opn new).nowOpen := List.mem_append_left _ hk
+    obtain ⟨ih1, ih2⟩ := ih (reloadListeners opn new).nowOpen hopen (fun c hc => hall c (List.mem_cons_of_mem _ hc))
+    refine ⟨?_, ?_⟩
+    · intro p hp
+      rw [listenerPlans, List.mem_cons] at hp
+      rcases hp with rfl | hp
+      · exact ⟨hk, hnc.2.1, hnc.2.2⟩
+      · exact ih1 p hp
+    · rw [listenerRuns_cons]
+      exact ih2
+
+example : "0.0.0.0:6557" ∈ ["0.0.0.0:6557", "/tmp/lmd.sock"] ∧
+    (∀ cfg ∈ [["0.0.0.0:6558", "0.0.0.0:6557"], ["0.0.0.0:6557"]], "0.0.0.0:6557" ∈ cfg) ∧
+    listenerPlans ["0.0.0.0:6557", "/tmp/lmd.sock"] [["0.0.0.0:6558", "0.0.0.0:6557"], ["0.0.0.0:6557"]] =
+      [{ kept := ["0.0.0.0:6557"], opened := ["0.0.0.0:6558"], closed := ["/tmp/lmd.sock"] },
+       { kept := ["0.0.0.0:6557"], opened := [], closed := ["0.0.0.0:6558"] }] := by decide
+
+/-- `listener_closed_only_when_removed`: a listener is closed by the `k`-th reload of the sequence only if it is
+    not in the `k`-th configuration (and it was open before that reload). -/
+theorem listener_closed_only_when_removed (opn : List String) (cfgs : List (List String)) (k : Nat)
+    (p : ListenerPlan) (hp : (listenerPlans opn cfgs)[k]? = some p) (l : String) (hl : l ∈ p.closed) :
+    ∃ cfg, cfgs[k]? = some cfg ∧ l ∉ cfg ∧ l ∈ listenerRuns opn (cfgs.take k) := by
+  induction cfgs generalizing opn k with
+  | nil => simp [listenerPlans] at hp
+  | cons new rest ih =>
+    cases k with
+    | zero =>
+      simp only [listenerPlans, List.getElem?_cons_zero, Option.some.injEq] at hp
+      subst hp
+      have := (listeners_closed opn new l).1 hl
+      exact ⟨new, rfl, this.2, this.1⟩
+    | succ k =>
+      simp only [listenerPlans, List.getElem?_cons_succ] at hp
+      obtain ⟨cfg, h1, h2, h3⟩ := ih _ k hp
+      exact ⟨cfg, by simpa using h1, h2, by rw [List.take_succ_cons, listenerRuns_cons]; exact h3⟩
+
+example : (listenerPlans ["0.0.0.0:6557", "/tmp/lmd.sock"] [["0.0.0.0:6558", "0.0.0.0:6557"], ["0.0.0.0:6557"]])[1]?
+    = some { kept := ["0.0.0.0:6557"], opened := [], closed := ["0.0.0.0:6558"] } := by decide
 
 end Lmd.C20Seq
